@@ -18,7 +18,9 @@
 #include "modular-extended.h"
 #include "montgomery.h"
 #include "gfq.h"
+#include "gf2.h"
 #include "givpoly1.h"
+#include "extension.h"
 #include <recint/recint.h>
 
 using namespace Givaro;
@@ -43,6 +45,19 @@ static std::string after(std::istream& is) {
     is.clear();
     std::string rest((std::istreambuf_iterator<char>(is.rdbuf())), std::istreambuf_iterator<char>());
     return hex(rest) + " " + (e ? "1" : "0") + (f ? "1" : "0");
+}
+// state bits and the next character (not extracted, stream state untouched) after one read of a sequence
+static std::string stnx(std::istream& is) {
+    bool e = is.eof(), f = is.fail();
+    int c = is.rdbuf()->sgetc();
+    std::string r = std::string(e ? "1" : "0") + (f ? "1" : "0") + ":";
+    if (c == std::char_traits<char>::eof()) return r + "--";
+    return r + hex(std::string(1, (char) c));
+}
+static std::string restof(std::istream& is) {
+    is.clear();
+    std::string rest((std::istreambuf_iterator<char>(is.rdbuf())), std::istreambuf_iterator<char>());
+    return hex(rest);
 }
 static std::string show(const Integer& z) { char* s = mpz_get_str(0, 10, z.get_mpz_const()); std::string r(s); free(s); return r; }
 static Integer parseZ(const std::string& s) { Integer z; mpz_set_str(z.get_mpz(), s.c_str(), 10); return z; }
@@ -87,6 +102,32 @@ static std::string int_ops(const std::string& op, const Args& a) {
         for (int i = 0; i < n; ++i) { Integer x(0); is >> x; r += (i ? "," : "") + show(x); }
         if (n == 0) r = "-";
         return r + " " + after(is);
+    }
+    if (op == "int.seqd.op" || op == "int.seqd.zring") {      // old n text: n reads into ONE variable that holds `old`
+        Integer x = parseZ(a[0]); int n = atoi(a[1].c_str()); std::istringstream is(unhex(a[2])); ZRing<Integer> Z; std::string r;
+        for (int i = 0; i < n; ++i) { if (op == "int.seqd.op") is >> x; else Z.read(is, x); r += show(x) + ":" + stnx(is) + " "; }
+        return r + restof(is);
+    }
+    if (op == "int.wseqb") {    // base old sep v1,v2,.. n : several Integers on one ostream in hex / oct mode, read back in that mode
+        int base = atoi(a[0].c_str()); Integer x = parseZ(a[1]); std::string sep = unhex(a[2]); std::vector<std::string> vs = split(a[3], ','); int n = atoi(a[4].c_str());
+        std::ostringstream o; if (base == 16) o << std::hex; else if (base == 8) o << std::oct;
+        for (size_t i = 0; i < vs.size(); ++i) { if (i) o << sep; if (i % 2) parseZ(vs[i]).print(o); else o << parseZ(vs[i]); }
+        std::istringstream is(o.str()); if (base == 16) is >> std::hex; else if (base == 8) is >> std::oct;
+        std::string r = hex(o.str()) + " ";
+        for (int i = 0; i < n; ++i) { is >> x; r += show(x) + ":" + stnx(is) + " "; }
+        return r + restof(is);
+    }
+    if (op == "int.wseq.op" || op == "int.wseq.print" || op == "int.wseq.zring") {
+        // old sep v1,v2,.. n : all values written to ONE ostream with the separator, then n reads from one istream into one variable
+        Integer x = parseZ(a[0]); std::string sep = unhex(a[1]); std::vector<std::string> vs = split(a[2], ','); int n = atoi(a[3].c_str());
+        std::ostringstream o; ZRing<Integer> Z;
+        for (size_t i = 0; i < vs.size(); ++i) {
+            Integer z = parseZ(vs[i]); if (i) o << sep;
+            if (op == "int.wseq.op") o << z; else if (op == "int.wseq.print") z.print(o); else Z.write(o, z);
+        }
+        std::istringstream is(o.str()); std::string r = hex(o.str()) + " ";
+        for (int i = 0; i < n; ++i) { if (op == "int.wseq.zring") Z.read(is, x); else is >> x; r += show(x) + ":" + stnx(is) + " "; }
+        return r + restof(is);
     }
     return "UNKNOWN-OP";
 }
@@ -133,6 +174,30 @@ static std::string rat_ops(const std::string& op, const Args& a) {
         if (n == 0) r = "-";
         return r + " " + after(is);
     }
+    if (op == "rat.seqd.op" || op == "rat.seqd.qfield") {     // oldn oldd n text: n reads into ONE variable
+        Rational q(parseZ(a[0]), parseZ(a[1]), 0); int n = atoi(a[2].c_str()); std::istringstream is(unhex(a[3])); QField<Rational> Q; std::string r;
+        for (int i = 0; i < n; ++i) {
+            std::string v;
+            try { if (op == "rat.seqd.op") is >> q; else Q.read(is, q); v = showq(q); } catch (...) { v = "EXC=" + showq(q); }
+            r += v + ":" + stnx(is) + " ";
+        }
+        return r + restof(is);
+    }
+    if (op == "rat.wseq.op" || op == "rat.wseq.print" || op == "rat.wseq.qfield") {      // oldn oldd sep n1/d1,n2/d2,.. n
+        Rational q(parseZ(a[0]), parseZ(a[1]), 0); std::string sep = unhex(a[2]); std::vector<std::string> vs = split(a[3], ','); int n = atoi(a[4].c_str());
+        std::ostringstream o; QField<Rational> Q;
+        for (size_t i = 0; i < vs.size(); ++i) {
+            std::vector<std::string> nd = split(vs[i], '/'); Rational r(parseZ(nd[0]), parseZ(nd[1]), 0); if (i) o << sep;
+            if (op == "rat.wseq.op") o << r; else if (op == "rat.wseq.print") r.print(o); else Q.write(o, r);
+        }
+        std::istringstream is(o.str()); std::string r = hex(o.str()) + " ";
+        for (int i = 0; i < n; ++i) {
+            std::string v;
+            try { if (op == "rat.wseq.qfield") Q.read(is, q); else is >> q; v = showq(q); } catch (...) { v = "EXC=" + showq(q); }
+            r += v + ":" + stnx(is) + " ";
+        }
+        return r + restof(is);
+    }
     return "UNKNOWN-OP";
 }
 
@@ -155,6 +220,19 @@ template <class Ring> struct RingIO {
             E e, e2; F.init(e, parseZ(a[1])); F.init(e2, Integer(1)); std::ostringstream o; F.write(o, e);
             std::istringstream is(o.str() + unhex(a[2])); F.read(is, e2);
             return hex(o.str()) + " " + (F.areEqual(e, e2) ? "1" : "0") + " " + norm(F, e2, p) + " " + after(is);
+        }
+        if (op == "ring.seqd") {    // old n text: n reads into ONE element that holds `old`
+            E e; F.init(e, parseZ(a[1])); int n = atoi(a[2].c_str()); std::istringstream is(unhex(a[3])); std::string r;
+            for (int i = 0; i < n; ++i) { F.read(is, e); r += norm(F, e, p) + ":" + stnx(is) + " "; }
+            return r + restof(is);
+        }
+        if (op == "ring.wseq") {    // old sep v1,v2,.. n
+            E e; F.init(e, parseZ(a[1])); std::string sep = unhex(a[2]); std::vector<std::string> vs = split(a[3], ','); int n = atoi(a[4].c_str());
+            std::ostringstream o;
+            for (size_t i = 0; i < vs.size(); ++i) { E w; F.init(w, parseZ(vs[i])); if (i) o << sep; F.write(o, w); }
+            std::istringstream is(o.str()); std::string r = hex(o.str()) + " ";
+            for (int i = 0; i < n; ++i) { F.read(is, e); r += norm(F, e, p) + ":" + stnx(is) + " "; }
+            return r + restof(is);
         }
         return "UNKNOWN-OP";
     }
@@ -181,6 +259,37 @@ template <class Ring> struct PolyIO {
             D.read(is, B);
             D.setdegree(A);
             return hex(o.str()) + " " + (D.areEqual(A, B) ? "1" : "0") + " " + showp(F, B, p) + " " + after(is);
+        }
+        if (op == "poly.wr") {          // var cs old: write, then read the text into a variable that holds `old`
+            PD D(F, Indeter(unhex(a[1]))); std::vector<std::string> cs = split(a[2], ','), os = split(a[3], ',');
+            P A(cs.size()); for (size_t i = 0; i < cs.size(); ++i) F.init(A[i], parseZ(cs[i]));
+            P B(os.size()); for (size_t i = 0; i < os.size(); ++i) F.init(B[i], parseZ(os[i]));
+            std::ostringstream o; D.write(o, A);
+            long deg = -1; { std::istringstream t(o.str()); t >> deg; }      // what the reader will take as the degree
+            if (deg < 0 || deg > 100000) return hex(o.str()) + " NOT-READ - 00";
+            std::istringstream is(o.str()); D.read(is, B);
+            return hex(o.str()) + " " + showp(F, B, p) + " " + after(is);
+        }
+        if (op == "poly.seqd") {        // old n text: n reads ("deg c_deg .. c_0") into ONE variable that holds `old`
+            PD D(F, Indeter("X")); std::vector<std::string> os = split(a[1], ',');
+            P B(os.size()); for (size_t i = 0; i < os.size(); ++i) F.init(B[i], parseZ(os[i]));
+            int n = atoi(a[2].c_str()); std::istringstream is(unhex(a[3])); std::string r;
+            for (int i = 0; i < n; ++i) {
+                if (!is.good()) break;      // `long deg; i >> deg;` leaves deg unset on a stream that is not good
+                D.read(is, B); r += showp(F, B, p) + ":" + stnx(is) + " ";
+            }
+            return r + restof(is);
+        }
+        if (op == "poly.wseq") {        // var sep c,c,c;c,c;.. : all polynomials written to ONE ostream with the separator
+            PD D(F, Indeter(unhex(a[1]))); std::string sep = unhex(a[2]); std::vector<std::string> ps = split(a[3], ';');
+            std::ostringstream o;
+            for (size_t k = 0; k < ps.size(); ++k) {
+                std::vector<std::string> cs = split(ps[k], ',');
+                P A(cs.size()); for (size_t i = 0; i < cs.size(); ++i) F.init(A[i], parseZ(cs[i]));
+                if (k) o << sep;
+                D.write(o, A);
+            }
+            return hex(o.str());
         }
         if (op == "poly.read") {
             PD D(F, Indeter("X")); P B; std::istringstream is(unhex(a[1])); D.read(is, B);
@@ -209,13 +318,41 @@ template <class T> struct GfqIO {
             int64_t v; F.convert(v, e);
             return std::to_string((long long) v) + " " + after(is);
         }
+        if (op == "gfq.seqd") {         // old n text
+            typename Fld::Element e = (typename Fld::Element) atoll(a[2].c_str()); int n = atoi(a[3].c_str());
+            std::istringstream is(unhex(a[4])); std::string r;
+            for (int i = 0; i < n; ++i) { F.read(is, e); int64_t v; F.convert(v, e); r += std::to_string((long long) v) + ":" + stnx(is) + " "; }
+            return r + restof(is);
+        }
         return "UNKNOWN-OP";
     }
 };
 
+// ---------------------------------------------------------------- Extension<Modular<int32_t>>: read = Poly1Dom::read ; modin
+static std::string ext_ops(const std::string& op, const Args& a) {
+    typedef Modular<int32_t> F; typedef Extension<F> Ext; typedef Ext::Pol_t PD; typedef Ext::PolElement P;
+    F f((int32_t) atol(a[0].c_str())); Integer p = parseZ(a[0]); PD D(f, Indeter("X"));
+    std::vector<std::string> ir = split(a[1], ','), os = split(a[2], ',');
+    P irr(ir.size()); for (size_t i = 0; i < ir.size(); ++i) f.init(irr[i], parseZ(ir[i]));
+    Ext E(D, irr);
+    if (op == "ext.seqd") {             // p irred old n text
+        P B(os.size()); for (size_t i = 0; i < os.size(); ++i) f.init(B[i], parseZ(os[i]));
+        int n = atoi(a[3].c_str()); std::istringstream is(unhex(a[4])); std::string r;
+        for (int i = 0; i < n; ++i) {
+            if (!is.good()) break;
+            E.read(is, B); r += PolyIO<F>::showp(f, B, p) + ":" + stnx(is) + " ";
+        }
+        return r + restof(is);
+    }
+    return "UNKNOWN-OP";
+}
+
 // ---------------------------------------------------------------- RecInt
 // rint<K> from a signed integer (rint's template constructor takes the ruint path, which is for values >= 0)
 template <size_t K> static RecInt::rint<K> mkrint(const Integer& z) { RecInt::rint<K> r; RecInt::mpz_t_to_rint(r, z.get_mpz_const()); return r; }
+// ruint<K>(const char*): the ruint<6> specialisation declares this constructor (ruruint.h) but nothing defines it (link error)
+template <size_t K> struct RuCstr { static RecInt::ruint<K> mk(const char* s) { return RecInt::ruint<K>(s); } };
+template <> struct RuCstr<6> { static RecInt::ruint<6> mk(const char* s) { RecInt::ruint<6> r; RecInt::mpz_to_ruint(r, mpz_class(s)); return r; } };
 template <size_t K> struct RecIO {
     static std::string go(const std::string& op, const Args& a) {
         bool hx = (a[1] == "1");
@@ -234,6 +371,32 @@ template <size_t K> struct RecIO {
             std::istringstream is(o.str() + unhex(a[3])); if (hx) is >> std::hex; is >> y;
             Integer z(y); return hex(o.str()) + " " + show(z) + " " + after(is);
         }
+        if (op == "ru.seqd") {          // hex old n text: n reads into ONE variable
+            RecInt::ruint<K> x(parseZ(a[2])); int n = atoi(a[3].c_str()); std::istringstream is(unhex(a[4])); if (hx) is >> std::hex; std::string r;
+            for (int i = 0; i < n; ++i) { is >> x; Integer z(x); r += show(z) + ":" + stnx(is) + " "; }
+            return r + restof(is);
+        }
+        if (op == "ri.seqd") {
+            RecInt::rint<K> x(mkrint<K>(parseZ(a[2]))); int n = atoi(a[3].c_str()); std::istringstream is(unhex(a[4])); if (hx) is >> std::hex; std::string r;
+            for (int i = 0; i < n; ++i) { is >> x; Integer z(x); r += show(z) + ":" + stnx(is) + " "; }
+            return r + restof(is);
+        }
+        if (op == "ru.wseq" || op == "ri.wseq") {      // hex old sep v1,v2,.. n
+            std::string sep = unhex(a[3]); std::vector<std::string> vs = split(a[4], ','); int n = atoi(a[5].c_str());
+            std::ostringstream o; if (hx) o << std::hex;
+            for (size_t i = 0; i < vs.size(); ++i) {
+                if (i) o << sep;
+                if (op == "ru.wseq") { RecInt::ruint<K> w(parseZ(vs[i])); o << w; } else { RecInt::rint<K> w(mkrint<K>(parseZ(vs[i]))); o << w; }
+            }
+            std::istringstream is(o.str()); if (hx) is >> std::hex; std::string r = hex(o.str()) + " ";
+            if (op == "ru.wseq") { RecInt::ruint<K> x(parseZ(a[2])); for (int i = 0; i < n; ++i) { is >> x; Integer z(x); r += show(z) + ":" + stnx(is) + " "; } }
+            else { RecInt::rint<K> x(mkrint<K>(parseZ(a[2]))); for (int i = 0; i < n; ++i) { is >> x; Integer z(x); r += show(z) + ":" + stnx(is) + " "; } }
+            return r + restof(is);
+        }
+        if (op == "ru.cstr") {          // ruint<K>(const char*) of the decimal text operator<< prints
+            RecInt::ruint<K> x(parseZ(a[2])); std::ostringstream o; o << x; RecInt::ruint<K> y(RuCstr<K>::mk(o.str().c_str())); Integer z(y);
+            return hex(o.str()) + " " + show(z);
+        }
         if (op == "ri.write") { RecInt::rint<K> x(mkrint<K>(parseZ(a[2]))); std::ostringstream o; if (hx) o << std::hex; o << x; return hex(o.str()); }
         if (op == "ri.read") {
             RecInt::rint<K> x(5); std::istringstream is(unhex(a[2])); if (hx) is >> std::hex; is >> x;
@@ -247,6 +410,41 @@ template <size_t K> struct RecIO {
 template <class T> static std::string numget(const Args& a) {
     T v = (T) atoll(a[0].c_str()); std::istringstream is(unhex(a[1])); is >> v;
     return std::to_string((long long) v) + " " + after(is);
+}
+
+// values of different types written one after the other to ONE ostream (default flags) and read back from ONE istream:
+// Integer, Rational, Modular<int32_t> element, ruint<7>, rint<7>, ModularBalanced<int64_t> element, GF2 element, polynomial text,
+// Integer, ruint<8>, Rational.   args: sep z n d p e u s b g c0,c1,.. z2 u8 n2 d2
+static std::string mix_rt(const Args& a) {
+    std::string sep = unhex(a[0]);
+    Integer z = parseZ(a[1]), z2 = parseZ(a[11]); Rational q(parseZ(a[2]), parseZ(a[3]), 0), q2(parseZ(a[13]), parseZ(a[14]), 0);
+    Modular<int32_t> F((int32_t) atol(a[4].c_str())); Modular<int32_t>::Element e; F.init(e, parseZ(a[5]));
+    RecInt::ruint<7> u(parseZ(a[6])); RecInt::rint<7> s7(mkrint<7>(parseZ(a[7]))); RecInt::ruint<8> u8(parseZ(a[12]));
+    ModularBalanced<int64_t> B((int64_t) atol(a[4].c_str())); ModularBalanced<int64_t>::Element b; B.init(b, parseZ(a[8]));
+    GF2 G; GF2::Element g; G.init(g, atoi(a[9].c_str()));
+    Poly1Dom<Modular<int32_t>, Dense> D(F, Indeter("X")); std::vector<std::string> cs = split(a[10], ',');
+    Poly1Dom<Modular<int32_t>, Dense>::Element P(cs.size()); for (size_t i = 0; i < cs.size(); ++i) F.init(P[i], parseZ(cs[i]));
+    std::ostringstream o;
+    o << z << sep << q << sep; F.write(o, e) << sep << u << sep << s7 << sep; B.write(o, b) << sep; G.write(o, g) << sep;
+    D.write(o, P) << sep << z2 << sep << u8 << sep << q2;
+    // read back everything but the polynomial (its text is skipped as characters)
+    std::ostringstream op; D.write(op, P);
+    std::istringstream is(o.str());
+    Integer rz(-99), rz2(-99); Rational rq(7, 3), rq2(7, 3); Modular<int32_t>::Element re; F.init(re, Integer(1));
+    RecInt::ruint<7> ru(5); RecInt::rint<7> rs(5); RecInt::ruint<8> ru8(5); ModularBalanced<int64_t>::Element rb; B.init(rb, Integer(1)); GF2::Element rg = false;
+    std::string r = hex(o.str()) + " ";
+    is >> rz; r += show(rz) + ":" + stnx(is) + " ";
+    is >> rq; r += showq(rq) + ":" + stnx(is) + " ";
+    F.read(is, re); { Integer v; F.convert(v, re); r += show(v) + ":" + stnx(is) + " "; }
+    is >> ru; { Integer v(ru); r += show(v) + ":" + stnx(is) + " "; }
+    is >> rs; { Integer v(rs); r += show(v) + ":" + stnx(is) + " "; }
+    B.read(is, rb); { Integer v; B.convert(v, rb); r += show(v) + ":" + stnx(is) + " "; }
+    G.read(is, rg); r += std::string(rg ? "1" : "0") + ":" + stnx(is) + " ";
+    is >> std::ws; for (size_t i = 0; i < op.str().size(); ++i) is.get();
+    is >> rz2; r += show(rz2) + ":" + stnx(is) + " ";
+    is >> ru8; { Integer v(ru8); r += show(v) + ":" + stnx(is) + " "; }
+    is >> rq2; r += showq(rq2) + ":" + stnx(is) + " ";
+    return r + restof(is);
 }
 
 typedef std::string (*Fn)(const std::string&, const Args&);
@@ -294,6 +492,10 @@ int main() {
             } else if (op.compare(0, 4, "gfq.") == 0) {
                 std::string w = a[0]; a.erase(a.begin());
                 out = (w == "32") ? GfqIO<int32_t>::go(op, a) : GfqIO<int64_t>::go(op, a);
+            } else if (op == "mix.rt") {
+                out = mix_rt(a);
+            } else if (op.compare(0, 4, "ext.") == 0) {
+                out = ext_ops(op, a);
             } else if (op == "indet.rt") {        // name tail: operator<<(Indeter) then operator>>(Indeter)
                 Indeter X(unhex(a[0])), Y("none"); std::ostringstream o; o << X;
                 std::istringstream is(o.str() + unhex(a[1])); is >> Y;
